@@ -3,7 +3,7 @@
 
 use crate::gen::gen_rscript_extreme;
 use crate::json::J;
-use crate::model::{ancestors, Exp, Model, Node};
+use crate::model::{ancestors, Model, Node};
 use crate::ops::{exec, render_res, Kind, Op, Out, TimeField};
 use crate::report::{Acc, Violation};
 use crate::rng::Rng;
@@ -202,19 +202,29 @@ fn run_fixture(a: &Args, name: &'static str, efs: VfsPath, dir: &str, acc: &mut 
                     });
                 }
             } else {
-                // mutators: refused, as not-supported whenever a writable filesystem would have accepted the call
-                let exp = model.expect(&op);
-                let noop_ok = matches!(&op, Op::RemoveDirAll(_)) && !c.exists() || matches!(&op, Op::CreateDirAll(_)) && c.is_dir();
-                match (&re, &exp) {
-                    (Ok(_), _) if noop_ok => {}
-                    (Ok(o), _) => acc.violate(Violation { property: "C18", signature: format!("mutator-ok|{}|{}", op.name(), c.name()), summary: format!("{} on the read-only EmbeddedFS returned Ok {}", op.render(), o.render()), detail: mk(J::Null), order }),
-                    (Err(e), Exp::Ok) | (Err(e), Exp::AnyNoEffect) if c.exists() || matches!(exp, Exp::Ok) => {
-                        let must = matches!(exp, Exp::Ok) || matches!(op, Op::SetTime(..));
-                        if must && e.kind != Kind::NotSupported && !(matches!(op, Op::SetTime(..)) && !c.exists()) {
+                // mutators: every one is refused; as NotSupported unless a check of the path layer itself (parent of a
+                // create is not an existing directory, source of a file transfer cannot be opened, target of
+                // remove_dir_all is a file) fails before the filesystem is asked
+                let parent_is_dir = model.class(&crate::model::parent_of(p)).is_dir();
+                let must_be_not_supported = match &op {
+                    Op::RemoveFile(_) | Op::RemoveDir(_) | Op::AppendFile(..) | Op::SetTime(..) => true,
+                    Op::CreateDir(_) | Op::CreateFile(..) => p.is_empty() || parent_is_dir,
+                    Op::CreateDirAll(_) => !p.is_empty(),
+                    Op::RemoveDirAll(_) => c.is_dir(),
+                    Op::CopyFile(..) | Op::MoveFile(..) => c == crate::model::Class::File,
+                    Op::CopyDir(..) | Op::MoveDir(..) => true,
+                    _ => false,
+                };
+                let may_succeed = matches!(&op, Op::RemoveDirAll(_)) && !c.exists() || matches!(&op, Op::CreateDirAll(_)) && p.is_empty();
+                let _ = model.expect(&op);
+                match &re {
+                    Ok(_) if may_succeed => {}
+                    Ok(o) => acc.violate(Violation { property: "C18", signature: format!("mutator-ok|{}|{}", op.name(), c.name()), summary: format!("{} on the read-only EmbeddedFS returned Ok {}", op.render(), o.render()), detail: mk(J::Null), order }),
+                    Err(e) => {
+                        if must_be_not_supported && !may_succeed && e.kind != Kind::NotSupported {
                             acc.violate(Violation { property: "C18", signature: format!("mutator-kind|{}|{}|{}", op.name(), c.name(), e.kind.name()), summary: format!("{} is refused with {} instead of NotSupported: {}", op.render(), e.kind.name(), e.display), detail: mk(J::Null), order });
                         }
                     }
-                    _ => {}
                 }
             }
         }
